@@ -484,8 +484,10 @@ class Gen:
 
 # ------------------------------------------------------------------ generator for C07 (constructs and their expansion)
 
-def import_(file, as_=None, params=None):
-    return {"k": "import", "file": file, "sid": "", "hasAs": as_ is not None, "as": as_ or "", "hasParams": params is not None, "params": params or []}
+def import_(file, as_=None, params=None, sel=None):
+    """sel: list of (name, as) for `.import name as other, ... from`; None/[] for `.import *`"""
+    return {"k": "import", "file": file, "sid": "", "hasAs": as_ is not None, "as": as_ or "", "hasParams": params is not None, "params": params or [],
+            "sel": [{"name": n, "as": a} for n, a in (sel or [])]}
 
 
 _render_old = render
@@ -500,7 +502,11 @@ def render(prog, indent=0, out=None, pos=None):          # extends the renderer 
         if st["k"] == "import":
             st["line"] = len(out) + 1
             st["col"] = len(pad) + 1
-            s = pad + ".import *" + (" as " + st["as"] if st["hasAs"] else "") + ' from "%s"' % st["file"]
+            if st.get("sel"):
+                what = ", ".join(x["name"] + (" as " + x["as"] if x["as"] != x["name"] else "") for x in st["sel"])
+            else:
+                what = "*" + (" as " + st["as"] if st["hasAs"] else "")
+            s = pad + ".import " + what + ' from "%s"' % st["file"]
             if st["hasParams"]:
                 out.append(s + " {")
                 render(st["params"], indent + 1, out)
@@ -549,7 +555,7 @@ def tla_ready(prog):
     for st in prog:
         if st["k"] == "import":
             out.append({"k": "import", "sid": st.get("sid") or "", "file": st["file"], "hasAs": st["hasAs"], "as": st["as"],
-                        "hasParams": st["hasParams"], "params": tla_ready(st["params"])})
+                        "hasParams": st["hasParams"], "params": tla_ready(st["params"]), "sel": st.get("sel", [])})
         else:
             c = _tla_ready_old([st])[0]
             for key in ("body", "then", "else"):
@@ -699,13 +705,25 @@ class Gen7:
             self.macros.append((nm, k))
         prog.append(label("dat"))
         prog.append(data(1, [num(1), num(2)]))
-        if r.random() < 0.35:
+        if r.random() < 0.45:
             fn = "inc.asm"
             inm = self.fresh("i")
-            files[fn] = [label(inm), insn("lda", "imm", num(r.randrange(256))), insn("sta", "dir", ident([inm])), insn("rts")]
-            as_ = "mod" if r.random() < 0.5 else None
-            prog.append(import_(fn, as_))
-            prog.append(insn("jsr", "dir", ident([as_, inm] if as_ else [inm])))
+            form = r.choice(["all", "allas", "allas-params", "sel", "sel-as", "sel-params"])
+            with_params = form.endswith("params")
+            body = [label(inm), insn("lda", "imm", ident(["ipar"]) if with_params else num(r.randrange(256))), insn("sta", "dir", ident([inm])), insn("rts")]
+            files[fn] = body
+            params = [const("ipar", num(r.choice([3, 77])))] if with_params else None
+            if form == "all":
+                prog.append(import_(fn))
+                ref = [inm]
+            elif form.startswith("allas"):
+                prog.append(import_(fn, "mod", params))
+                ref = ["mod", inm]
+            else:
+                newname = inm if form == "sel" else self.fresh("j")
+                prog.append(import_(fn, None, params, sel=[(inm, newname)]))
+                ref = [newname]
+            prog.append(insn("jsr", "dir", ident(ref)))
         for _ in range(r.randrange(2, 6)):
             prog.append(self.construct(1, False, [], True))
         prog.append(label("tgt"))
